@@ -185,6 +185,7 @@ fn c18(ctx: &Ctx) -> i32 {
     )
 }
 
+pub mod c02win;
 pub mod c03;
 pub mod c04;
 pub mod c05;
